@@ -282,10 +282,30 @@ impl Jsonify for Value {
       Value::List(items) => items.jsonify(),
       Value::Number(value) => value.jsonify(),
       Value::Null(_) => "null".to_string(),
-      Value::String(s) => format!("\"{}\"", s),
+      Value::String(s) => json_string(s),
       _ => format!("jsonify not implemented for: {}", self),
     }
   }
+}
+
+/// Returns the text as a `JSON` string literal: the quotation mark, the reverse solidus
+/// and the control characters are escaped, all other characters are copied.
+pub(crate) fn json_string(text: &str) -> String {
+  let mut json = String::with_capacity(text.len() + 2);
+  json.push('"');
+  for ch in text.chars() {
+    match ch {
+      '"' => json.push_str("\\\""),
+      '\\' => json.push_str("\\\\"),
+      '\n' => json.push_str("\\n"),
+      '\r' => json.push_str("\\r"),
+      '\t' => json.push_str("\\t"),
+      ch if (ch as u32) < 0x20 => json.push_str(&format!("\\u{:04x}", ch as u32)),
+      ch => json.push(ch),
+    }
+  }
+  json.push('"');
+  json
 }
 
 impl Value {
